@@ -19,8 +19,8 @@ ASSUMPTIONS = ["solver round-off: variants compared at 1e-7 relative to the data
                "points in general position (no tied neighbour distances for KNeighbors; hull-interior queries for Linear/Cubic)"]
 TRUSTED = ["numpy ravel/atleast_1d/broadcast semantics", "pandas Series -> ndarray conversion"]
 
-LINEAR = {"trend", "spline", "vector", "knn-mean", "linear", "chain-trend-knn", "vector-trend"}
-VEC = {"vector", "vector-trend"}
+LINEAR = {"trend", "spline", "vector", "knn-mean", "linear", "chain-trend-knn", "vector-trend", "spline-dense-forces", "vector-dense-forces"}
+VEC = {"vector", "vector-trend", "vector-dense-forces"}
 
 
 def pts(rng, n):
@@ -52,6 +52,12 @@ def build(kind, params):
         return vd.Spline(damping=params.get("damping"))
     if kind == "vector":
         return vd.VectorSpline2D(poisson=params["poisson"], mindist=params["mindist"], damping=params.get("damping"))
+    if kind in ("spline-dense-forces", "vector-dense-forces"):
+        # more forces than data (a dense regular grid of them), damped: an under-determined but well-posed ridge problem
+        fc = tuple(np.ravel(c) for c in vd.grid_coordinates((-44.0, 44.0, -44.0, 44.0), shape=(params["nf"], params["nf"] + 1)))
+        if kind == "spline-dense-forces":
+            return vd.Spline(damping=params["damping"], force_coords=fc)
+        return vd.VectorSpline2D(poisson=0.5, mindist=4.0, damping=params["damping"], force_coords=fc)
     if kind == "knn-mean":
         return vd.KNeighbors(k=params["k"])
     if kind == "knn-median":
@@ -109,7 +115,7 @@ def _degenerate(es, ns):
 
 def rand_case(rng, kind=None, amp=None):
     kind = kind or rng.choice(["trend", "trend", "spline", "spline", "vector", "knn-mean", "knn-median", "linear", "cubic",
-                               "knn-max", "chain-trend-knn", "chain-knnmax-trend", "vector-trend"])
+                               "knn-max", "chain-trend-knn", "chain-knnmax-trend", "vector-trend", "spline-dense-forces", "vector-dense-forces"])
     n = rng.choice([6, 8, 9, 10, 12])
     es, ns = pts(rng, n)
     while ((kind.startswith("knn") or "knn" in kind) and _has_ties(es, ns, at_data=kind.startswith("chain"))) or (kind in ("linear", "cubic") and _degenerate(es, ns)):
@@ -124,6 +130,8 @@ def rand_case(rng, kind=None, amp=None):
               "knn-mean": {"k": rng.randint(1, 3)}, "knn-median": {"k": rng.randint(1, 3)}, "knn-max": {"k": rng.randint(1, 3)},
               "chain-trend-knn": {"k": rng.randint(1, 3)}, "chain-knnmax-trend": {"k": rng.randint(1, 3)},
               "vector-trend": {"degree": rng.randint(0, 2)},
+              "spline-dense-forces": {"damping": rng.choice([1e-3, 1e-2]), "nf": rng.randint(5, 8)},
+              "vector-dense-forces": {"damping": rng.choice([1e-3, 1e-2]), "nf": rng.randint(4, 6)},
               "linear": {"rescale": rng.random() < 0.5}, "cubic": {"rescale": rng.random() < 0.5}}[kind]
     if w is not None and kind in ("spline", "vector") and params.get("damping") is None:
         w = None
@@ -136,7 +144,7 @@ def corpus():
     import random
     rng = random.Random(4)
     cs = [rand_case(rng, k, 1.0) for k in ["trend", "spline", "vector", "knn-mean", "knn-median", "linear", "cubic",
-                                           "knn-max", "chain-trend-knn", "chain-knnmax-trend", "vector-trend"]]
+                                           "knn-max", "chain-trend-knn", "chain-knnmax-trend", "vector-trend", "spline-dense-forces", "vector-dense-forces"]]
     # families exercised on EVERY run: every kind also with data of large and of tiny amplitude
     cs += [rand_case(rng, k, a) for a in (12500.0, 0.001) for k in ("cubic", "linear", "spline", "trend", "knn-median", "vector")]
     return cs
@@ -217,6 +225,18 @@ def impl(case):
             g2.fit(*allv["permuted"])
             p2 = g2.predict((qE, qN))
             res["refit-permuted"] = [np.asarray(x, dtype=float).ravel().tolist() for x in (p2 if isinstance(p2, tuple) else (p2,))]
+            # the SAME object fitted first to integer-typed data, then to fractional data of the same size: what it then predicts is what a fresh
+            # object fitted to the fractional data predicts (nothing of the first fit's dtype or buffers survives)
+            bc, bd, bw = allv["base"]
+            frac = tuple(0.5 * np.asarray(x, dtype=float) + 0.25 * np.asarray(x, dtype=float)[::-1] + 0.125 for x in (bd if isinstance(bd, tuple) else (bd,)))
+            ints = tuple(np.round(np.asarray(x, dtype=float)).astype("int64") for x in (bd if isinstance(bd, tuple) else (bd,)))
+            g3 = build(kind, params)
+            g3.fit(bc, ints if isinstance(bd, tuple) else ints[0], bw)
+            g3.fit(bc, frac if isinstance(bd, tuple) else frac[0], bw)
+            p3 = g3.predict((qE, qN))
+            pfresh = _fit_predict(kind, params, bc, frac if isinstance(bd, tuple) else frac[0], bw, (qE, qN))
+            res["mixed:refit-after-integer-data"] = [[np.asarray(x, dtype=float).ravel().tolist() for x in (p3 if isinstance(p3, tuple) else (p3,))],
+                                                     [x.ravel().tolist() for x in pfresh]]
             for name, (coords, data, weights) in allv.items():
                 p = _fit_predict(kind, params, coords, data, weights, (qE, qN))
                 if any(x.shape != (4, 3) for x in p):
@@ -316,7 +336,7 @@ def oracle(case, io):
         if name.startswith("mixed:"):
             pm, pr = np.array(p[0]), np.array(p[1])
             if not np.allclose(pm, pr, rtol=0, atol=tol * sc, equal_nan=True):
-                return (f"{case['args'][0]} {case['args'][1]}: integer-typed coordinates ({name[6:]}) change the prediction "
+                return (f"{case['args'][0]} {case['args'][1]}: {'a refit after integer-typed data differs from a fresh fit' if 'refit' in name else 'integer-typed coordinates (' + name[6:] + ') change the prediction'} "
                         f"(max difference {np.nanmax(np.abs(pm - pr))})")
             continue
         if name in ("base", "int-query", "linearity"):
